@@ -44,7 +44,12 @@ func vfRunTransfer(c vtrace.Case, rec *vtrace.Rec) {
 	net, cconn, sconn := vtrace.NewNet(5*time.Millisecond, vtrace.FaultsFromOps(c.Ops))
 	defer net.Close()
 	conf := func() *Config {
-		return &Config{EnableDatagrams: true, MaxIdleTimeout: 20 * time.Second, Versions: []Version{vsVersion(c.Cfg.Int("version"))},
+		idle := 20 * time.Second
+		if ms := c.Cfg.Int("idle"); ms > 0 {
+			idle = time.Duration(ms) * time.Millisecond
+		}
+		// (no path MTU probing in the quiet scenario: probes are traffic of their own and would end the quiet period)
+		return &Config{EnableDatagrams: true, MaxIdleTimeout: idle, DisablePathMTUDiscovery: c.Cfg.Str("scenario") == "quiet", Versions: []Version{vsVersion(c.Cfg.Int("version"))},
 			MaxIncomingStreams: 100, MaxIncomingUniStreams: 100}
 	}
 	str := &Transport{Conn: sconn}
@@ -237,6 +242,30 @@ func vfRunTransfer(c vtrace.Case, rec *vtrace.Rec) {
 				time.Sleep(3 * time.Millisecond)
 			}
 		}
+	case "quiet":
+		// an application-idle period that is a large part of the idle timeout, then an upload whose acknowledgements meet a
+		// short outage right away: the path is never dead for as long as the idle timeout, the transfer must complete
+		time.Sleep(time.Duration(c.Cfg.Int("quiet")) * time.Millisecond)
+		net.SetFaults([]vtrace.Fault{{Dir: c.Cfg.Str("odir"), Kind: "blackout", At: int(time.Since(r.start) / time.Millisecond), Dur: c.Cfg.Int("outage")}})
+		up, down, downName := cc, serverConn, "server"
+		if c.Cfg.Str("up") == "s" {
+			up, down, downName = serverConn, cc, "client"
+		}
+		s1, err := up.OpenStreamSync(ctx)
+		if err != nil {
+			panic(err)
+		}
+		wg.Add(2)
+		go writer(1, s1, 300000, 65536, 0)
+		go func() {
+			st, err := down.AcceptStream(ctx)
+			if err != nil {
+				r.add(vtrace.Op{"ev": "ConnError", "side": downName, "err": vsErrString(err)})
+				wg.Done()
+				return
+			}
+			reader(1, st, 32768)
+		}()
 	case "bulk", "dgram":
 		size := 1 << 21
 		if c.Cfg.Str("scenario") == "dgram" {
